@@ -121,11 +121,17 @@ func (h *Handler) delete(lease *Lease) {
 	delete(h.table, string(lease.ClientID))
 }
 
+// inUse reports an address that must not be leased: one the session tracks a host for, and - whether or not the
+// session still has an entry for them - our own address and the router's.
+func (h *Handler) inUse(ip netip.Addr) bool {
+	return ip == h.session.NICInfo.HostAddr4.IP || ip == h.session.NICInfo.RouterAddr4.IP || h.session.FindIP(ip) != nil
+}
+
 // allocIPOffer allocates a free IP to the lease entry
 func (h *Handler) allocIPOffer(lease *Lease, reqIP netip.Addr) error {
 	if reqIP.Is4() && !reqIP.Less(lease.subnet.FirstIP) && reqIP.Less(lease.subnet.broadcast) {
 		if l := h.findByIP(reqIP); l == nil || l.State == StateFree || bytes.Equal(l.ClientID, lease.ClientID) {
-			if h.session.FindIP(reqIP) == nil {
+			if !h.inUse(reqIP) {
 				lease.IPOffer = reqIP
 				if Logger.IsInfo() {
 					Logger.Msg("offer").IP("ip", lease.IPOffer).Write()
@@ -140,7 +146,7 @@ func (h *Handler) allocIPOffer(lease *Lease, reqIP netip.Addr) error {
 	for lease.subnet.nextIP.Less(lease.subnet.broadcast) {
 		// for tmpIP.IsValid() {
 		if l := h.findByIP(lease.subnet.nextIP); l == nil || l.State == StateFree {
-			if h.session.FindIP(lease.subnet.nextIP) == nil {
+			if !h.inUse(lease.subnet.nextIP) {
 				ip = lease.subnet.nextIP
 				lease.subnet.nextIP = lease.subnet.nextIP.Next()
 				break
@@ -157,7 +163,7 @@ func (h *Handler) allocIPOffer(lease *Lease, reqIP netip.Addr) error {
 	lease.subnet.nextIP = lease.subnet.FirstIP
 	for lease.subnet.nextIP.Less(lease.subnet.broadcast) {
 		if l := h.findByIP(lease.subnet.nextIP); l == nil || l.State == StateFree {
-			if h.session.FindIP(lease.subnet.nextIP) == nil {
+			if !h.inUse(lease.subnet.nextIP) {
 				ip = lease.subnet.nextIP
 				lease.subnet.nextIP = lease.subnet.nextIP.Next()
 				break
